@@ -60,13 +60,28 @@ func refVerify(leaf string, nodes []string, idx int, root string) bool {
 
 func c19Sizes(tier string) int {
 	if tier == "thorough" {
-		return 4096
+		return 4096 + 64
 	}
-	return 1024
+	return 1024 + 64
+}
+
+// c19N maps a case index to its leaf count: every n up to the tier's bound, then 64 larger sizes of every residue
+// modulo 16 (quick: 1025..5057, thorough: 4097..8129) so that whatever a tree does differently above a size threshold
+// is met by a few sizes of each shape
+func c19N(tier string, idx int) int {
+	bound := c19Sizes(tier) - 64
+	if idx < bound {
+		return idx + 1
+	}
+	k := idx - bound
+	return bound + 1 + k*63
 }
 
 func runC19(c *fw.Ctx) {
-	n := c.Idx + 1
+	n := c19N(c.Tier, c.Idx)
+	if n > c19Sizes(c.Tier)-64 {
+		c.Count("trees_above_the_exhaustive_bound", 1)
+	}
 	leaves := make([]util.Hashable, n)
 	ls := make([]string, n)
 	// leaf hashes of one tree have one fixed width: 64 hex characters for most sizes, every fourth size another width
@@ -378,14 +393,14 @@ func init() {
 		ID:           "C19",
 		EvalCounters: []string{"paths_verified", "other_leaf_rejections"},
 		Level:        "exploration",
-		Rule: "one case per leaf count n=1..N (N=1024 quick, 4096 thorough) with distinct leaf hashes derived from (seed,n,i), all of one width per tree (64 hex characters; for every fourth n one of 1, 8, 40, 63, 65, 96, 128, 200 characters); every leaf index i is exercised: " +
+		Rule: "one case per leaf count n=1..N (N=1024 quick, 4096 thorough) plus 64 larger sizes N+1+63k (every residue modulo 16) with distinct leaf hashes derived from (seed,n,i), all of one width per tree (64 hex characters; for every fourth n one of 1, 8, 40, 63, 65, 96, 128, 200 characters); every leaf index i is exercised: " +
 			"path by index and by leaf lookup must verify against GetRoot() (library verifier and an independent one), root must equal an independent pairwise/duplicate-last reference, " +
 			"the same path must not verify for other leaves (all others for n<=64; neighbours, sibling, last leaves, 3 random and a one-nibble mutation above), export/import must reproduce root and paths; a different tree (rotated leaves plus one new leaf) is then loaded with SetTree / re-computed with ComputeTree into the objects that already served lookups and its by-leaf and by-index paths must prove the new leaves only; returned paths are edited/appended to by the harness and the tree re-verified; every 16th size also computes independent trees in 4 concurrent goroutines and compares with the sequential roots; a tree loaded from GetTree() without copying must be unaffected by the exporter computing other trees, and by SetTree calls on itself that are rejected for a wrong size. " +
 			"distinct non-trivial = distinct (n,i) pairs whose path was produced and verified",
 		Cases:      c19Sizes,
 		Run:        runC19,
 		Exhaustive: func(string) bool { return true },
-		Floors:     map[string]int64{"trees": 1000, "trees_with_other_leaf_width": 250, "paths_verified": 500000, "other_leaf_rejections": 3000000, "settree_wrong_size_rejected": 1000, "reused_object_paths": 5000, "loaded_tree_paths_after_exporter_reuse": 3000, "paths_after_caller_edits": 3000, "concurrent_independent_tree_groups": 60},
+		Floors:     map[string]int64{"trees": 1000, "trees_above_the_exhaustive_bound": 60, "trees_with_other_leaf_width": 250, "paths_verified": 500000, "other_leaf_rejections": 3000000, "settree_wrong_size_rejected": 1000, "reused_object_paths": 5000, "loaded_tree_paths_after_exporter_reuse": 3000, "paths_after_caller_edits": 3000, "concurrent_independent_tree_groups": 60},
 		Assumptions: []string{
 			"leaf hashes of one tree are distinct strings of one fixed width (64 hex in most trees, 1..200 characters in a quarter of them): the tree concatenates strings, so leaves of different widths within one tree are outside the property's domain",
 			"exhaustive over n<=N and all indices, not over all leaf values",
